@@ -6,6 +6,8 @@
      request r = Call ; ReadGen (invalidations.Load) ; Lookup (fetch*Duties under RLock + hit/missing computation on
                  the snapshot) ; [ BN call: Fetch (the beacon node computes its answer) ; Deliver (answer reaches the
                  cache) ; StoreOrAmend (storeOrAmend*Duties under Lock) ] ; Return
+                 or, when the beacon node fails the call: ... ; FetchFail ; Deliver (the error reaches the cache) ;
+                 ReturnErr
      InvalidateCache(e0) = InvCall ; InvBump ; InvTrim per kind in the order of Kinds (trimAfter*Duties) ; InvRet
      Trim(ep)            = TrimCall ; TrimStep per kind (trimBefore*Duties(ep - TrimThreshold)) ; TrimRet
 
